@@ -35,7 +35,9 @@ func disturbParser() {
 // the checker keeps between loads (pooled contexts, depth counters, scope stacks) is then in the state an earlier failure left.
 var disturbScripts = []string{"for v in [1] { y = nosuchfn() }", "for i = 0; i < 1; i = nosuchfn() { }", "for ;; { for w in [1] { if w { nosuchfn() } } }",
 	"if 1 { if 2 { x = len() } }", "for v in [1] { for ;; { add_key() } }", "if 0 { } elif 1 { for v in [1] { grok(_, \"%{NOSUCHPAT:x}\") } }",
-	"for v in [1] { break }\nfor ;; { x = [nosuchfn()] }", "add_pattern(\"dp\", \"\\\\d\")\nfor v in [1] { add_pattern(\"dq\", \"%{NOSUCHPAT}\") }"}
+	"for v in [1] { break }\nfor ;; { x = [nosuchfn()] }", "add_pattern(\"dp\", \"\\\\d\")\nfor v in [1] { add_pattern(\"dq\", \"%{NOSUCHPAT}\") }",
+	// rejected AFTER use() calls were seen (what the check pass collected for linking must not reach the next script)
+	"use(\"nowhere.p\")\nnosuchfn()", "if 1 { use(\"junk2.p\") }\nfor ;; { use(\"nowhere.p\")\nlen() }", "use(\"junk.p\")\nbreak"}
 
 var disturbC int
 
